@@ -1,6 +1,12 @@
 import Toq.Model.States
+import Toq.Model.Combinat
 import Toq.Spec.States
 import Toq.Proofs.States
+import Toq.Proofs.StatesHoro
+import Toq.Proofs.StatesMub
+import Toq.Proofs.StatesMore
+import Toq.Proofs.StatesMisc
+import Toq.Proofs.StatesTensor
 import Mathlib.RingTheory.RootsOfUnity.Complex
 /-!
 # C17 — named states and standard matrices satisfy their defining identities
@@ -1063,6 +1069,425 @@ theorem horodecki24_trace_one {α : Type} [Field α] (a c : α) :
   norm_num at h2 h ⊢
   field_simp
   ring
+
+/-! ## Horodecki states: positive and PPT for every parameter (symbolic, over any ordered field) -/
+
+section horodecki
+variable {α : Type} [Field α] [LinearOrder α] [IsStrictOrderedRing α]
+
+/-- **`horodecki(a, [3,3])` is a positive semidefinite matrix for every `a ≥ 0`** (so for the whole admissible range
+    `0 ≤ a ≤ 1`), `c = √(1-a²)/2` entering only through `4c² = 1 - a²` (either sign of `c`). -/
+theorem horodecki33_psd (a c : α) (ha0 : 0 ≤ a) (hc : 4 * c * c = 1 - a * a) : PSD 9 (horodecki33 a c) :=
+  horodecki33_psd_aux a c ha0 hc
+
+/-- **`horodecki(a, [3,3])` is PPT for every admissible `a`**: its partial transpose (second factor, `3 ⊗ 3`) is
+    positive semidefinite — a symbolic statement for all `a`, not a sampled one. -/
+theorem horodecki33_ppt (a c : α) (ha0 : 0 ≤ a) (hc : 4 * c * c = 1 - a * a) : PSD 9 (pT2 3 (horodecki33 a c)) :=
+  horodecki33_ppt_aux a c ha0 hc
+
+/-- **`horodecki(a, [2,4])` is positive semidefinite for every admissible `a`.** -/
+theorem horodecki24_psd (a c : α) (ha0 : 0 ≤ a) (hc : 4 * c * c = 1 - a * a) : PSD 8 (horodecki24 a c) :=
+  horodecki24_psd_aux a c ha0 hc
+
+/-- **`horodecki(a, [2,4])` is PPT for every admissible `a`**: the partial transpose on the second (`4`-dimensional) factor
+    of the `2 ⊗ 4` state is positive semidefinite. -/
+theorem horodecki24_ppt (a c : α) (ha0 : 0 ≤ a) (hc : 4 * c * c = 1 - a * a) : PSD 8 (pT2 4 (horodecki24 a c)) :=
+  horodecki24_ppt_aux a c ha0 hc
+
+omit [LinearOrder α] [IsStrictOrderedRing α] in
+/-- Horodecki states are real symmetric matrices (both supported dimensions), so `PSD` above is positivity of a
+    Hermitian operator. -/
+theorem horodecki_symmetric (a c : α) :
+    (∀ i, i < 9 → ∀ j, j < 9 → horodecki33 a c i j = horodecki33 a c j i) ∧
+    (∀ i, i < 8 → ∀ j, j < 8 → horodecki24 a c i j = horodecki24 a c j i) :=
+  ⟨horodecki33_symm a c, horodecki24_symm a c⟩
+
+/-- the hypotheses are satisfiable at a non-trivial rational parameter: `a = 3/5`, `c = 2/5` -/
+example : (0 : ℚ) ≤ 3 / 5 ∧ 4 * (2 / 5 : ℚ) * (2 / 5) = 1 - (3 / 5) * (3 / 5) := by norm_num
+
+end horodecki
+
+/-! ## Hadamard: the code's bit-count loop, tensor-power structure -/
+
+/-- **Mirror = closed form for `hadamard`**, every `n`: `(-1) ** _hamming_distance(i & j)` with Kernighan's loop
+    `x &= x - 1` equals `(-1)^{popcount(i & j)}` (the product over the bits). -/
+theorem hadamardMirror_eq (n i j : Nat) (hi : i < 2 ^ n) : hadamardMirror n i j = hadamardS n i j :=
+  hadamardMirror_eq_aux n i j hi
+
+/-- **`hadamard(n+1) = hadamard(1) ⊗ hadamard(n)`**, every `n`: the sign matrix is the `n`-fold tensor power of
+    `[[1, 1], [1, -1]]`. -/
+theorem hadamard_tensor_power (n i j : Nat) :
+    hadamardS (n + 1) i j = kron (2 ^ n) (2 ^ n) (hadamardS 1) (hadamardS n) i j :=
+  hadamardS_kron n i j
+
+/-! ## mutually unbiased bases -/
+
+section mub
+variable {α : Type} [CommRing α]
+
+/-- The exponent model of the eigenvectors of `X Z^j` (what the driver prints) denotes the valued model. -/
+theorem mubE_eval (ω : α) (d : Nat) (hω : ω ^ d = 1) (j m x : Nat) :
+    RU.eval ω (mubE d j m x) = mubVec ω j m x :=
+  pow_mod_root ω d hω _
+
+/-- **Mirror = closed form**: the matrix the code hands to `eig`, `gen_pauli(1,0,d) @ gen_pauli(0,1,d) ** j` with NumPy's
+    *elementwise* power, is `X Z^j` for every `j ≥ 1` (for `j = 0` the elementwise power would give the all-ones matrix;
+    the loop runs over `j = d, …, 1`). -/
+theorem mubMatMirror_eq (ω : α) (d j : Nat) (hj : 0 < j) (i k : Nat) (hk : k < d) :
+    mubMatMirror ω d j i k = genPauli ω d 1 j i k :=
+  Toq.States.mubMatMirror_eq ω d j hj i k hk
+
+/-- **The model vectors are eigenvectors**: for odd `d`, `v_{j,m}[x] = ω^{j x(x-1)/2 + m x}` satisfies
+    `(X Z^j) v_{j,m} = ω̄^m v_{j,m}`. -/
+theorem mub_eigenvector (ω ωc : α) (d : Nat) (hodd : Odd d) (j m : Nat) (hω : ω ^ d = 1) (hc : ω * ωc = 1)
+    (i : Nat) (hi : i < d) :
+    sumN d (fun l => genPauli ω d 1 j i l * mubVec ω j m l) = ωc ^ m * mubVec ω j m i := by
+  obtain ⟨k, rfl⟩ := hodd
+  exact mub_eigen_aux ω ωc k j m hω hc i hi
+
+/-- **Eigenvectors of `X Z^j` are unique up to a scalar**: any `u` with `(X Z^j) u = λ u`, `λ` invertible, is
+    `u[i] = λ⁻ⁱ ω^{j i(i-1)/2} u[0]`; for `λ = ω̄^m` this is `u[0]·v_{j,m}`.  This is why the harness may compare LAPACK's
+    eigenvectors with the model up to order and phase. -/
+theorem mub_eigenvector_unique (ω lam lamc : α) (d j : Nat) (u : Nat → α) (hl : lam * lamc = 1)
+    (h : ∀ i, i < d → sumN d (fun k => genPauli ω d 1 j i k * u k) = lam * u i) (i : Nat) (hi : i < d) :
+    u i = lamc ^ i * ω ^ (j * tri i) * u 0 :=
+  mub_eig_unique_aux ω lam lamc d j u hl h i hi
+
+/-- **Each basis is orthonormal**, every `d`: `⟨v_{j,m}, v_{j,m'}⟩ = d·δ_{mm'}` (numerators; the vectors carry `1/√d`). -/
+theorem mub_basis_orthonormal [IsDomain α] (ω ωc : α) (d : Nat) (hω : IsPrimitiveRoot ω d) (hc : ω * ωc = 1)
+    (j m m' : Nat) (hm : m < d) (hm' : m' < d) :
+    inner d (mubVec ωc j m) (mubVec ω j m') = if m = m' then (d : α) else 0 :=
+  mub_orthonormal_aux ω ωc d hω hc j m m' hm hm'
+
+/-- **Mutual unbiasedness for every odd prime `p`** (quadratic Gauss sum): for `j ≠ j'` the eigenvectors of `X Z^j` and
+    `X Z^{j'}` satisfy `|⟨v_{j,m}, v_{j',m'}⟩|² = p` on the numerators, i.e. `1/p` for the normalised vectors — all `m, m'`.
+    (The second factor is the complex conjugate of the first when `ωc = conj ω`.) -/
+theorem mub_unbiased [IsDomain α] (ω ωc : α) (p : Nat) (hp : p.Prime) (hp2 : p ≠ 2) (hω : IsPrimitiveRoot ω p)
+    (hc : ω * ωc = 1) (j j' m m' : Nat) (hj : j < p) (hj' : j' < p) (hne : j ≠ j') :
+    inner p (mubVec ωc j m) (mubVec ω j' m') * inner p (mubVec ω j m) (mubVec ωc j' m') = (p : α) := by
+  rcases hp.eq_two_or_odd' with h | h
+  · exact absurd h hp2
+  · obtain ⟨k, rfl⟩ := h
+    exact mub_unbiased_aux ω ωc k hp hω hc j j' m m' hj hj' hne
+
+/-- **Unbiased with respect to the standard basis**: every component of `v_{j,m}` has modulus one (`1/√d` after
+    normalisation). -/
+theorem mub_unbiased_standard (ω ωc : α) (hc : ω * ωc = 1) (j m x : Nat) :
+    mubVec ω j m x * mubVec ωc j m x = 1 :=
+  pow_mul_inv_pow ω ωc hc _
+
+end mub
+
+/-- **`dim = 2`** (the even prime; the eigenvalues of `X Z` are `±i`, not square roots of unity): the table vectors are
+    eigenvectors of the mirrored matrices `pauli_x @ pauli_z ** j` (`g = 1, 2`, i.e. `j = 2, 1`). -/
+theorem mub2_eigenvector : ∀ g, g < 3 → 0 < g → ∀ m, m < 2 → ∀ i, i < 2 →
+    sumN 2 (fun k => mub2Mat g i k * mub2 g m k) = mub2Eig g m * mub2 g m i := by decide
+
+/-- **`dim = 2`: each of the three bases is orthonormal**: `⟨u_m, u_{m'}⟩ = den2·δ_{mm'}` on the numerators. -/
+theorem mub2_orthonormal : ∀ g, g < 3 → ∀ m, m < 2 → ∀ m', m' < 2 →
+    inner 2 (fun x => (mub2 g m x).conj) (mub2 g m') = if m = m' then ⟨(mub2Den2 g : Int), 0⟩ else 0 := by decide
+
+/-- **`dim = 2`: the three bases are mutually unbiased**: across bases `|⟨u, v⟩|²·2 = den2_g·den2_h`, i.e.
+    `|⟨u, v⟩|² = 1/2` after normalisation. -/
+theorem mub2_unbiased : ∀ g, g < 3 → ∀ h, h < 3 → ∀ m, m < 2 → ∀ m', m' < 2 → g ≠ h →
+    (inner 2 (fun x => (mub2 g m x).conj) (mub2 h m') * (inner 2 (fun x => (mub2 g m x).conj) (mub2 h m')).conj)
+        * ⟨2, 0⟩ = (⟨(mub2Den2 g * mub2Den2 h : Nat), 0⟩ : GI) := by decide
+
+/-- an odd prime with a primitive root exists in `ℂ` for the hypotheses of `mub_unbiased`: `p = 3` -/
+example : ∃ ω ωc : ℂ, IsPrimitiveRoot ω 3 ∧ ω * ωc = 1 ∧ Nat.Prime 3 :=
+  ⟨_, _, Complex.isPrimitiveRoot_exp 3 (by norm_num),
+    mul_inv_cancel₀ ((Complex.isPrimitiveRoot_exp 3 (by norm_num)).ne_zero (by norm_num)), Nat.prime_three⟩
+
+/-! ## spectra of the partially transposed Werner / isotropic states (the closed-form eigenvalues the driver reports) -/
+
+/-- **`Ω` is an eigenvector of the partially transposed Werner state** with eigenvalue `(1 − α d)/(d(d−α))`
+    (`wernerPTEigs.2`) — every `d`. -/
+theorem werner_pt_eig_omega {α : Type} [Field α] (d : Nat) (a : α) (r : Nat) (hr : r < d * d) :
+    sumN (d * d) (fun c => pT2 d (werner d a) r c * omegaVec d c) = (wernerPTEigs d a).2 * omegaVec d r := by
+  rw [sumN_congr _ (fun c => ((1 / ((d : α) * ((d : α) - a))) * delta r c
+      + (-a / ((d : α) * ((d : α) - a))) * (omegaVec d r * omegaVec d c)) * omegaVec d c) (d * d) (fun c hc => by
+    rw [werner_pt_closed d a r c hr hc, omegaProj_eq]; ring)]
+  rw [matvec_rank_one (d * d) _ _ _ _ r hr, omegaVec_sq_sum]
+  unfold wernerPTEigs
+  ring
+
+/-- **Every vector orthogonal to `Ω` is an eigenvector of the partially transposed Werner state** with eigenvalue
+    `1/(d(d−α))` (`wernerPTEigs.1`); together with `werner_pt_eig_omega` this is the whole spectrum. -/
+theorem werner_pt_eig_perp {α : Type} [Field α] (d : Nat) (a : α) (v : Nat → α)
+    (hv : sumN (d * d) (fun c => omegaVec d c * v c) = 0) (r : Nat) (hr : r < d * d) :
+    sumN (d * d) (fun c => pT2 d (werner d a) r c * v c) = (wernerPTEigs d a).1 * v r := by
+  rw [sumN_congr _ (fun c => ((1 / ((d : α) * ((d : α) - a))) * delta r c
+      + (-a / ((d : α) * ((d : α) - a))) * (omegaVec d r * omegaVec d c)) * v c) (d * d) (fun c hc => by
+    rw [werner_pt_closed d a r c hr hc, omegaProj_eq]; ring)]
+  rw [matvec_rank_one (d * d) _ _ _ _ r hr, hv]
+  unfold wernerPTEigs
+  ring
+
+/-- **Symmetric vectors (`v ∘ swap = v`) are eigenvectors of the partially transposed isotropic state** with eigenvalue
+    `(1−α)/d² + α/d` (`isotropicPTEigs.1`). -/
+theorem isotropic_pt_eig_sym {α : Type} [Field α] (d : Nat) (a : α) (v : Nat → α)
+    (hv : ∀ r, r < d * d → v (swapIdx d r) = v r) (r : Nat) (hr : r < d * d) :
+    sumN (d * d) (fun c => pT2 d (isotropic d a) r c * v c) = (isotropicPTEigs d a).1 * v r := by
+  rw [sumN_congr _ (fun c => (((1 - a) / ((d : α) * (d : α))) * delta r c + (a / (d : α)) * swapOp d r c) * v c) (d * d)
+    (fun c hc => by rw [isotropic_pt_closed d a r c hr hc]; ring)]
+  rw [matvec_swap d v _ _ r hr, hv r hr]
+  unfold isotropicPTEigs
+  ring
+
+/-- **Antisymmetric vectors (`v ∘ swap = −v`) are eigenvectors of the partially transposed isotropic state** with
+    eigenvalue `(1−α)/d² − α/d` (`isotropicPTEigs.2`); symmetric and antisymmetric vectors span the space. -/
+theorem isotropic_pt_eig_antisym {α : Type} [Field α] (d : Nat) (a : α) (v : Nat → α)
+    (hv : ∀ r, r < d * d → v (swapIdx d r) = -v r) (r : Nat) (hr : r < d * d) :
+    sumN (d * d) (fun c => pT2 d (isotropic d a) r c * v c) = (isotropicPTEigs d a).2 * v r := by
+  rw [sumN_congr _ (fun c => (((1 - a) / ((d : α) * (d : α))) * delta r c + (a / (d : α)) * swapOp d r c) * v c) (d * d)
+    (fun c hc => by rw [isotropic_pt_closed d a r c hr hc]; ring)]
+  rw [matvec_swap d v _ _ r hr, hv r hr]
+  unfold isotropicPTEigs
+  ring
+
+/-! ## operator bases span; the generalised Bell basis is complete -/
+
+/-- **Generalised Pauli operators span all matrices**, every `d`: the matrix unit `E_{ij}` is
+    `(1/d) Σ_b ω̄^{b j} X^a Z^b` with `a = i − j (mod d)`; entrywise, for any `a`:
+    `Σ_b ω̄^{b j} (X^a Z^b)[i', j'] = d·[i' = j + a mod d]·[j' = j]`. -/
+theorem genPauli_spans {α : Type} [CommRing α] [IsDomain α] (ω ωc : α) (d : Nat) (hω : IsPrimitiveRoot ω d)
+    (hc : ω * ωc = 1) (a j i' j' : Nat) (hj : j < d) (hj' : j' < d) :
+    sumN d (fun b => ωc ^ (b * j) * genPauli ω d a b i' j') = if i' = (j + a) % d ∧ j' = j then (d : α) else 0 :=
+  genPauli_unit_expansion ω ωc d hω hc a j i' j' hj hj'
+
+/-- **The generalised Bell states resolve the identity**, every `d`: `Σ_{a,b<d} |ψ_{ab}⟩⟨ψ_{ab}| = I` (on the numerators
+    `vec(W_{ab})`: `d·δ_{rc}`), so the `d²` orthonormal vectors are a complete basis of `C^d ⊗ C^d`. -/
+theorem genBell_complete {α : Type} [CommRing α] [IsDomain α] (ω ωc : α) (d : Nat) (hd : 0 < d)
+    (hω : IsPrimitiveRoot ω d) (hc : ω * ωc = 1) (r c : Nat) (hr : r < d * d) (hcc : c < d * d) :
+    sumN d (fun a => sumN d (fun b => vecF d (genPauli ω d a b) r * vecF d (genPauli ωc d a b) c))
+      = if r = c then (d : α) else 0 :=
+  genBell_complete_aux ω ωc d hd hω hc r c hr hcc
+
+/-- **Generalised Gell-Mann matrices span the off-diagonal matrix units**: for `a < b`, `G_{ab} + i·G_{ba} = 2E_{ab}` and
+    `G_{ab} − i·G_{ba} = 2E_{ba}` (all entries). -/
+theorem genGellMann_spans_offdiag (a b i j : Nat) (hab : a < b) :
+    genGellMann a b i j + (⟨0, 1⟩ : GI) * genGellMann b a i j = (if i = a ∧ j = b then ⟨2, 0⟩ else 0) ∧
+    genGellMann a b i j + (⟨0, -1⟩ : GI) * genGellMann b a i j = (if i = b ∧ j = a then ⟨2, 0⟩ else 0) :=
+  genGellMann_offdiag_unit a b i j hab
+
+/-- **… and the diagonal matrix units**, every `d ≥ 1`: with `D_l = diag(genGellMann l l)`,
+    `E_{kk} = (1/d)·G_{00} + Σ_{l=1}^{d-1} D_l[k]/(l(l+1))·(numerator of G_{ll})`; entrywise
+    `1/d + Σ_{l=1}^{d-1} D_l[k] D_l[i]/(l(l+1)) = δ_{ki}`.  Together with trace-orthogonality the `d²` matrices are an
+    operator basis. -/
+theorem genGellMann_spans_diag {α : Type} [Field α] [CharZero α] (d : Nat) (hd : 0 < d) (k i : Nat)
+    (hk : k < d) (hi : i < d) :
+    1 / (d : α) + sumN d (fun l => if l = 0 then 0 else
+        (((genGellMann l l k k).re : Int) : α) * (((genGellMann l l i i).re : Int) : α) / ((l : α) * ((l : α) + 1)))
+      = if k = i then 1 else 0 := by
+  obtain ⟨n, rfl⟩ : ∃ n, d = n + 1 := ⟨d - 1, by omega⟩
+  rw [← gm_diag_complete_succ n k i hk hi]
+  congr 1
+  apply sumN_congr
+  intro l _
+  unfold gmTerm
+  rw [genGellMann_diag, genGellMann_diag, if_pos rfl, if_pos rfl]
+  rfl
+
+/-- **The dimension guard of `mutually_unbiased_basis` is a primality test**: the model takes the "build the bases" branch
+    exactly for prime `d` (so the hypothesis `p.Prime` of `mub_unbiased` is what the code checks). -/
+theorem mub_guard_prime (d : Nat) : mubGuard d = 0 ↔ d.Prime := by
+  unfold mubGuard
+  rw [← isPrimeB_iff]
+  by_cases h : isPrimeB d = true
+  · simp [h]
+  · simp only [h, if_false, Bool.false_eq_true, iff_false]
+    split <;> omega
+
+/-! ## BB84, trine, Gisin, Pusey–Barrett–Rudolph, Breuer, Brauer, chessboard states -/
+
+/-- **BB84: both bases are orthonormal** (`⟨u_m, u_{m'}⟩ = den2·δ`). -/
+theorem bb84_orthonormal : ∀ b, b < 2 → ∀ m, m < 2 → ∀ m', m' < 2 →
+    inner 2 (bb84S b m) (bb84S b m') = if m = m' then (bb84Den2 b : Int) else 0 := by decide
+
+/-- **BB84: the two bases are mutually unbiased**: `|⟨z_m, x_{m'}⟩|²·2 = 1·2`, i.e. `1/2` after normalisation. -/
+theorem bb84_unbiased : ∀ m, m < 2 → ∀ m', m' < 2 →
+    inner 2 (bb84S 0 m) (bb84S 1 m') * inner 2 (bb84S 0 m) (bb84S 1 m') * 2 = (bb84Den2 0 * bb84Den2 1 : Nat) := by decide
+
+/-- **Trine states: Gram matrix** `⟨ψ_i, ψ_j⟩ = 1` for `i = j` and `-1/2` otherwise (components are `(p + q√3)/2`; the
+    products are computed in `ℤ[√3]` and carry the factor `1/4`). -/
+theorem trine_gram : ∀ i, i < 3 → ∀ j, j < 3 →
+    addR3 (mulR3 (trineS i 0) (trineS j 0)) (mulR3 (trineS i 1) (trineS j 1)) = if i = j then (4, 0) else (-2, 0) := by
+  decide
+
+/-- **Trine states sum to zero** (they form a symmetric frame). -/
+theorem trine_sum_zero : ∀ x, x < 2 → addR3 (addR3 (trineS 0 x) (trineS 1 x)) (trineS 2 x) = (0, 0) := by decide
+
+/-- **Gisin states are the documented mixture**: `ρ_{λ,θ} = λ|ψ_θ⟩⟨ψ_θ| + (1−λ)(|00⟩⟨00| + |11⟩⟨11|)/2` with
+    `ψ_θ = sin θ|01⟩ − cos θ|10⟩` (the code's `-sin(2θ)/2` is `-sin θ cos θ`). -/
+theorem gisin_mixture {α : Type} [Field α] (lam s c : α) (h2 : (2 : α) ≠ 0) (i j : Nat) (hi : i < 4) (hj : j < 4) :
+    gisin lam s c i j = lam * (gisinPsi s c i * gisinPsi s c j)
+      + (1 - lam) * (if i = j ∧ (i = 0 ∨ i = 3) then 1 else 0) / 2 :=
+  gisin_entry lam s c h2 i j hi hj
+
+/-- **Gisin states have trace one** for every `λ` and every angle (`cos² + sin² = 1`). -/
+theorem gisin_trace_one {α : Type} [Field α] (lam s c : α) (h2 : (2 : α) ≠ 0) (h : c * c + s * s = 1) :
+    trace 4 (gisin lam s c) = 1 :=
+  gisin_trace lam s c h2 h
+
+/-- **Gisin states are positive semidefinite for every admissible `λ ∈ [0, 1]`** and every angle. -/
+theorem gisin_psd {α : Type} [Field α] [LinearOrder α] [IsStrictOrderedRing α] (lam s c : α) (h0 : 0 ≤ lam)
+    (h1 : lam ≤ 1) : PSD 4 (gisin lam s c) :=
+  gisin_psd_aux lam s c h0 h1
+
+/-- **PBR states: the Gram matrix factorises over the qubits**, every `n`: `⟨Ψ_t, Ψ_{t'}⟩ = Π_k g(t_k, t'_k)` with
+    `g = c² + s²` for equal bits and `c² − s²` for different bits (`c = cos(θ/2)`, `s = sin(θ/2)`). -/
+theorem pbr_gram {α : Type} [CommRing α] (c s : α) (n t t' : Nat) :
+    inner (2 ^ n) (pbrVec c s n t) (pbrVec c s n t') = pbrGram c s n t t' :=
+  pbr_gram_aux c s n t t'
+
+/-- **PBR states: `⟨Ψ_t, Ψ_{t'}⟩ = cos(θ)^{Hamming distance(t, t')}`** (`cos θ = c² − s²`), every `n`; in particular all
+    states are normalised. -/
+theorem pbr_gram_cos {α : Type} [CommRing α] (c s : α) (h : c * c + s * s = 1) (n t t' : Nat) :
+    inner (2 ^ n) (pbrVec c s n t) (pbrVec c s n t') = (c * c - s * s) ^ popcount n (t ^^^ t') := by
+  rw [pbr_gram, pbrGram_pow c s h]
+
+example : (4 / 5 : ℚ) * (4 / 5) + (3 / 5) * (3 / 5) = 1 := by norm_num
+
+/-- **Breuer: mirror = closed form** for the pure component: `kron(I, V) @ max_entangled(d)` has the amplitude
+    `(-1)^{j+1}/√d` at `|i, j⟩` with `i + j = d − 1` and `0` elsewhere — every `d`. -/
+theorem breuerPsi_mirror_eq (d r : Nat) (hr : r < d * d) : breuerPsiMirror d r = breuerPsi d r :=
+  breuerPsiMirror_eq_aux d r hr
+
+/-- The pure component of the Breuer state is normalised (`Σ ψ² = d` on the numerators), every `d`. -/
+theorem breuer_psi_normalised (d : Nat) : inner (d * d) (breuerPsi d) (breuerPsi d) = (d : Int) :=
+  breuerPsi_norm d
+
+/-- **For even `d` the pure component is antisymmetric** under exchange of the two parties (it lies in the
+    antisymmetric subspace, orthogonal to the support of the symmetric projection). -/
+theorem breuer_psi_antisymmetric (d r : Nat) (hd : d % 2 = 0) (hr : r < d * d) :
+    breuerPsi d (swapIdx d r) = -breuerPsi d r :=
+  breuerPsi_antisym d r hd hr
+
+/-- **Breuer states have trace one**, every `d`, every `λ`. -/
+theorem breuer_trace_one {α : Type} [Field α] (d : Nat) (lam : α) (h2 : (2 : α) ≠ 0) (hd : (d : α) ≠ 0)
+    (hd1 : (d : α) + 1 ≠ 0) : trace (d * d) (breuer d (breuerPsi d) lam) = 1 :=
+  breuer_trace d lam h2 hd hd1
+
+/-- **Breuer states are positive semidefinite for every `λ ∈ [0, 1]`**, every `d ≥ 1`. -/
+theorem breuer_psd {α : Type} [Field α] [LinearOrder α] [IsStrictOrderedRing α] (d : Nat) (hd : 0 < d) (lam : α)
+    (h0 : 0 ≤ lam) (h1 : lam ≤ 1) : PSD (d * d) (breuer d (breuerPsi d) lam) :=
+  breuer_psd_aux d hd lam h0 h1
+
+/-- **Brauer: the `p`-fold tensor power of `Σ_i |ii⟩`** has amplitude `1` on `|x_0 … x_{2p−1}⟩` iff `x_{2k} = x_{2k+1}` for all
+    `k`, else `0` — every `d`, `p`. -/
+theorem brauer_phi (d : Nat) (x : Nat → Nat) (p : Nat) (hx : ∀ k, k < 2 * p → x k < d) :
+    brauerPhi d p (index d (2 * p) x) = if ∀ k, k < p → x (2 * k) = x (2 * k + 1) then 1 else 0 :=
+  brauerPhi_enc d x p hx
+
+/-- **Brauer columns (mirror = spec)**: for every permutation `σ` of the `2p` parties (every row of
+    `perfect_matchings(2p)` is one), `permute_systems(phi, σ)` has amplitude `1` on `|y_0 … y_{2p−1}⟩` iff
+    `y_{σ⁻¹(2k)} = y_{σ⁻¹(2k+1)}` for all `k < p` — the parties sitting at the positions whose `σ`-values are `2k`, `2k+1` are
+    maximally entangled — and `0` otherwise. -/
+theorem brauer_column (d p : Nat) (hd : 0 < d) (mt : List Nat)
+    (hlt : ∀ k, k < 2 * p → (fnOfList mt) k < 2 * p)
+    (hinj : ∀ a b, a < 2 * p → b < 2 * p → (fnOfList mt) a = (fnOfList mt) b → a = b) (j : Nat) :
+    brauerCol d p mt j
+      = if ∀ k, k < p → digit d (2 * p) j (invPerm (2 * p) (fnOfList mt) (2 * k))
+            = digit d (2 * p) j (invPerm (2 * p) (fnOfList mt) (2 * k + 1)) then 1 else 0 :=
+  brauerCol_eq d p hd mt hlt hinj j
+
+/-- **Every Brauer column has squared norm `d^p`** (documented: unnormalised states). -/
+theorem brauer_column_norm (d p : Nat) (hd : 0 < d) (mt : List Nat)
+    (hlt : ∀ k, k < 2 * p → (fnOfList mt) k < 2 * p)
+    (hinj : ∀ a b, a < 2 * p → b < 2 * p → (fnOfList mt) a = (fnOfList mt) b → a = b) :
+    inner ((d * d) ^ p) (brauerCol d p mt) (brauerCol d p mt) = (d : Int) ^ p :=
+  brauerCol_sq_sum d p hd mt hlt hinj
+
+/-- the hypotheses of `brauer_column` hold for the rows of `perfect_matchings(4)` -/
+example : ∀ mt ∈ Toq.Combinat.perfectMatchings (List.range 4),
+    (∀ k, k < 4 → (fnOfList mt) k < 4) ∧ (∀ a, a < 4 → ∀ b, b < 4 → (fnOfList mt) a = (fnOfList mt) b → a = b) := by
+  decide
+
+/-- **Chessboard states have trace one** whenever the normalisation `tr Σ_k v_k† v_k` is non-zero. -/
+theorem chessboard_trace_one {α : Type} [Field α] [HasConj α] (pr : Nat → α) (s t : α)
+    (h : trace 9 (chessNum pr s t) ≠ 0) : trace 9 (chessboard pr s t) = 1 :=
+  chessboard_trace_aux pr s t h
+
+/-- **Chessboard states are Hermitian** (`conj` any involutive ring homomorphism, e.g. complex conjugation), all parameters
+    including explicitly passed `s`, `t`. -/
+theorem chessboard_hermitian {α : Type} [Field α] [HasConj α] (σ : α →+* α) (hσ : ∀ x : α, HasConj.conj x = σ x)
+    (hinv : ∀ x, σ (σ x) = x) (pr : Nat → α) (s t : α) (i j : Nat) :
+    HasConj.conj (chessboard pr s t i j) = chessboard pr s t j i :=
+  chessboard_hermitian_aux σ hσ hinv pr s t i j
+
+/-! ## argument handling of `werner`, consistency between the families -/
+
+/-- **The party-count loop of `werner` (list form) accepts exactly the lengths `p! − 1`** (checked for every length
+    `1 … 129`, i.e. `p = 2 … 5`): the mirrored loop `n_var //= i …` together with the later row access `sorted_perms[i]`
+    agrees with the specification "`len(alpha) + 1 = p!`".  (Lengths such as `6` or `24 … 28` pass the loop itself and die with
+    an `IndexError` in the row access; the model counts that as a rejection.) -/
+theorem wernerParties_spec : ∀ len, len < 130 → 0 < len → wernerParties len = factInv (len + 1) := by decide +kernel
+
+/-- **`bell(idx)` as written in the code** (`kron(e_a, e_b) ± kron(e_c, e_d)`) is the table used above. -/
+theorem bellMirror_eq : ∀ idx, idx < 4 → ∀ k, k < 4 → bellMirror idx k = bellS idx k := by decide
+
+/-- **For `d = 2` the generalised Bell states are the Bell states**: `gen_bell(a, b, 2) = |bell(2a + b)⟩⟨bell(2a + b)|`
+    (`ω = −1`; numerators, both sides carry the factor `1/2`). -/
+theorem genBell_two_eq_bell : ∀ a, a < 2 → ∀ b, b < 2 → ∀ r, r < 4 → ∀ c, c < 4 →
+    vecF 2 (genPauli (-1 : Int) 2 a b) r * vecF 2 (genPauli (-1 : Int) 2 a b) c
+      = bellS (2 * a + b) r * bellS (2 * a + b) c := by decide
+
+/-- **The Gell-Mann matrices are the generalised Gell-Mann matrices for `d = 3`**: `λ_1 … λ_8 =
+    G_{01}, G_{10}, G_{11}, G_{02}, G_{20}, G_{12}, G_{21}, G_{22}` (numerators; the normalisations agree:
+    `gellMannDen2 8 = genGellMannDen2 2 2 = 3`). -/
+theorem gellMann_eq_genGellMann : ∀ i, i < 3 → ∀ j, j < 3 →
+    gellMann 1 i j = genGellMann 0 1 i j ∧ gellMann 2 i j = genGellMann 1 0 i j ∧ gellMann 3 i j = genGellMann 1 1 i j ∧
+    gellMann 4 i j = genGellMann 0 2 i j ∧ gellMann 5 i j = genGellMann 2 0 i j ∧ gellMann 6 i j = genGellMann 1 2 i j ∧
+    gellMann 7 i j = genGellMann 2 1 i j ∧ gellMann 8 i j = genGellMann 2 2 i j ∧ gellMann 0 i j = genGellMann 0 0 i j := by
+  decide
+
+/-- **The Pauli matrices are the generalised Gell-Mann matrices for `d = 2`.** -/
+theorem pauli_eq_genGellMann : ∀ i, i < 2 → ∀ j, j < 2 →
+    pauli 1 i j = genGellMann 0 1 i j ∧ pauli 2 i j = genGellMann 1 0 i j ∧ pauli 3 i j = genGellMann 1 1 i j ∧
+    pauli 0 i j = genGellMann 0 0 i j := by decide
+
+/-- **Tile states are product vectors**: each is `u ⊗ w` for explicit `u, w ∈ C³`. -/
+theorem tile_product : ∀ a, a < 5 → ∃ u w : Nat → Int, ∀ k, tileS a k = u (k / 3) * w (k % 3) := by
+  intro a ha
+  interval_cases a <;> first | exact ⟨_, _, fun _ => rfl⟩ | exact ⟨fun _ => 1, fun _ => 1, fun _ => rfl⟩
+
+/-- **Domino states are product vectors.** -/
+theorem domino_product : ∀ a, a < 9 → ∃ u w : Nat → Int, ∀ k, dominoS a k = u (k / 3) * w (k % 3) := by
+  intro a ha
+  interval_cases a <;> exact ⟨_, _, fun _ => rfl⟩
+
+/-! ## multipartite Werner states: invariance under `U^{⊗p}` -/
+
+/-- `U^{⊗2}` in the digit form used below is the Kronecker square `U ⊗ U` of the bipartite theorems. -/
+theorem tensorPow_two_eq_kron {α : Type} [CommRing α] (d : Nat) (U : Nat → Nat → α) (r c : Nat) (hr : r < d * d)
+    (hc : c < d * d) : tensorPow d 2 U r c = kron2 d U U r c :=
+  tensorPow_two d U r c hr hc
+
+/-- **toqito's permutation operators commute with `U^{⊗p}`** — every matrix `U`, every local dimension `d ≥ 1`, every
+    number of parties `p`, every permutation of the parties: `P_σ U^{⊗p} = U^{⊗p} P_σ` (entries of the mirror model of
+    `permutation_operator`). -/
+theorem permOp_commutes_tensor {α : Type} [CommRing α] (d p : Nat) (hd : 0 < d) (U : Nat → Nat → α) (f : Nat → Nat)
+    (hlt : ∀ k, k < p → f k < p) (hinj : ∀ a b, a < p → b < p → f a = f b → a = b) (r c : Nat)
+    (hr : r < d ^ p) (hc : c < d ^ p) :
+    matMul (d ^ p) (Toq.Perms.permOp p f (fun _ => d) false) (tensorPow d p U) r c
+      = matMul (d ^ p) (tensorPow d p U) (Toq.Perms.permOp p f (fun _ => d) false) r c :=
+  permOp_commutes_tensorPow d p hd U f hlt hinj r c hr hc
+
+/-- **Multipartite Werner states (list form) are `U^{⊗p}` invariant**: `I − Σ_k α_k P(σ_k)`, normalised, commutes with
+    `U^{⊗p}` for every matrix `U` (for unitary `U`: `U^{⊗p} ρ (U^{⊗p})† = ρ`) — every `d`, every coefficient list, both
+    conventions for the permutation operator, every `p` for which the enumerated index lists are permutations
+    (`WernerPermsValid`, which holds by evaluation for `p = 2, 3, 4`: next theorem). -/
+theorem wernerList_tensor_invariant {α : Type} [Field α] (d p : Nat) (hd : 0 < d) (alphas : List α) (argsort : Bool)
+    (hperm : WernerPermsValid p argsort) (U : Nat → Nat → α) (r c : Nat) (hr : r < d ^ p) (hc : c < d ^ p) :
+    matMul (d ^ p) (wernerList d p alphas argsort) (tensorPow d p U) r c
+      = matMul (d ^ p) (tensorPow d p U) (wernerList d p alphas argsort) r c :=
+  wernerList_commutes_tensorPow d p hd alphas argsort hperm U r c hr hc
+
+/-- The enumeration `itertools.permutations(range(p))[1:]` (and its `argsort`) consists of permutations for `p = 2, 3, 4`,
+    so `wernerList_tensor_invariant` applies to every bi-, tri- and four-partite Werner state. -/
+theorem wernerPerms_valid : WernerPermsValid 2 true ∧ WernerPermsValid 2 false ∧ WernerPermsValid 3 true ∧
+    WernerPermsValid 3 false ∧ WernerPermsValid 4 true ∧ WernerPermsValid 4 false :=
+  wernerPermsValid_small
 
 
 end Toq.C17
